@@ -116,13 +116,6 @@ func (cb *CircuitBreaker) Execute(fn func() error) error {
 		return err
 	}
 
-	// Increment request count for half-open state
-	cb.mutex.Lock()
-	if cb.state == StateHalfOpen {
-		cb.requestCount++
-	}
-	cb.mutex.Unlock()
-
 	defer func() {
 		if r := recover(); r != nil {
 			cb.afterRequest(false)
@@ -179,8 +172,9 @@ func (cb *CircuitBreaker) beforeRequest() error {
 				cb.requestCount = 0
 				cb.successCount = 0
 			}
+			err := cb.admitLocked()
 			cb.unlockAndNotify()
-			return nil
+			return err
 		}
 		return ErrCircuitBreakerOpen
 	}
@@ -193,11 +187,32 @@ func (cb *CircuitBreaker) beforeRequest() error {
 		if atLimit {
 			return ErrTooManyRequests
 		}
-		return nil
+		cb.mutex.Lock()
+		err := cb.admitLocked()
+		cb.mutex.Unlock()
+		return err
 	}
 
 	cb.mutex.RUnlock()
 	return ErrCircuitBreakerOpen
+}
+
+// admitLocked decides admission for the current state and, in half-open state, counts
+// the trial in the same critical section as the limit check, so concurrent callers
+// can never be admitted beyond maxRequests. Must be called with the write lock held.
+func (cb *CircuitBreaker) admitLocked() error {
+	switch cb.state {
+	case StateHalfOpen:
+		if cb.requestCount >= cb.maxRequests {
+			return ErrTooManyRequests
+		}
+		cb.requestCount++
+		return nil
+	case StateOpen:
+		return ErrCircuitBreakerOpen
+	default:
+		return nil
+	}
 }
 
 // afterRequest updates the circuit breaker state after a request
